@@ -39,14 +39,15 @@ func consumeSingleTURNFrame(b []byte) (int, error) {
 		return 0, errIncompleteTURNFrame
 	}
 
-	var datagramSize uint16
+	// Sizes are computed as int: header plus a 16-bit length does not fit in uint16.
+	var datagramSize int
 	switch {
 	case stun.IsMessage(b):
-		datagramSize = binary.BigEndian.Uint16(b[2:4]) + stunHeaderSize
+		datagramSize = int(binary.BigEndian.Uint16(b[2:4])) + stunHeaderSize
 	case ChannelNumber(binary.BigEndian.Uint16(b[0:2])).Valid():
-		datagramSize = binary.BigEndian.Uint16(b[channelDataNumberSize:channelDataHeaderSize])
-		if paddingOverflow := (datagramSize + channelDataPadding) % channelDataPadding; paddingOverflow != 0 {
-			datagramSize = (datagramSize + channelDataPadding) - paddingOverflow
+		datagramSize = int(binary.BigEndian.Uint16(b[channelDataNumberSize:channelDataHeaderSize]))
+		if paddingOverflow := datagramSize % channelDataPadding; paddingOverflow != 0 {
+			datagramSize += channelDataPadding - paddingOverflow
 		}
 
 		datagramSize += channelDataHeaderSize
@@ -56,11 +57,11 @@ func consumeSingleTURNFrame(b []byte) (int, error) {
 		return 0, errInvalidTURNFrame
 	}
 
-	if len(b) < int(datagramSize) {
+	if len(b) < datagramSize {
 		return 0, errIncompleteTURNFrame
 	}
 
-	return int(datagramSize), nil
+	return datagramSize, nil
 }
 
 // ReadFrom implements ReadFrom from net.PacketConn.
